@@ -20,6 +20,14 @@ why = {
  "c09_r3a": "CompositeGlyph::write: bytes -> read -> write of a 2-component record gave no answer in 27 min / 6 GB",
  "c18_r3b": "callsubr bias is chosen inside the interpreter loop (not encoded); only the bias kernel itself is",
  "c10_b": "zlib-compressed WOFF entries are outside the bound",
+ "c01_r4a": "post names: Vec of PascalStrings is out of memory at 10 GB (section 6, C01 Out); the two cooperating sites (short read accepted, unchecked index in glyph_name) are both behind it",
+ "c05_r4a": "cursive chains in glyph_positions: out of memory",
+ "c07_r4a": "Type1-to-CID conversion sits in the CFF subsetting pipeline (out of reach, section 4); only FDSelect lookup itself is decided (c18_fdselect_lookup)",
+ "c09_r4b": "format 4 cmap builder (from_mappings) takes the BTreeMap-backed MappingsToKeep: C08 is not applicable",
+ "c12_r4b": "the guard sits in glyph_deltas, which iterates over a glyph's tuple variations (TupleVariationStore: out of memory)",
+ "c16_r4b": "needs a REPEAT count byte of 255 (a run of 256 points); the packed-decoder harnesses place REPEAT with counts 0 and 1",
+ "c18_r4a": "the nesting limit is checked inside the interpreter loop (not encoded)",
+ "c06_r4a": "format 2 enumeration (256-iteration loop) does not finish inside the quick tier; the thorough-tier harness c06_format2_mappings_consistent is the one aimed at it",
 }
 print("| seed | property | change (needs) | result | by |")
 print("|---|---|---|---|---|")
